@@ -38,6 +38,8 @@ type simReader struct {
 	st    *Stats
 	log   []string
 	site  int64
+	// reloaded: the object served an earlier session before this one.
+	reloaded bool
 }
 
 type readerFaults struct {
@@ -138,6 +140,13 @@ func newSimReader(ch chooser.Chooser, data string, f readerFaults, st *Stats) *s
 	return r
 }
 
+// reload makes r deliver what src was built to deliver: the reader object is
+// re-used for a new input, as a caller does with strings.Reader.Reset.
+func (r *simReader) reload(src *simReader) {
+	r.data, r.pos, r.plan, r.next, r.calls, r.stuck = src.data, 0, src.plan, 0, 0, nil
+	r.reloaded = true
+}
+
 // Read implements io.Reader. Every call is a preemption point.
 func (r *simReader) Read(p []byte) (int, error) {
 	sched.Yield(sched.KPoint, siteRead, int64(r.calls))
@@ -177,20 +186,28 @@ const siteRead = 20
 // plans are consumed completely unless the scanner stops early, so this is
 // counted at consumption time by countFired).
 func (r *simReader) countFired(st *Stats) {
-	for i := 0; i < r.next && i < len(r.plan); i++ {
-		seg := r.plan[i]
+	countFiredSegs(st, r.plan[:minInt(r.next, len(r.plan))], len(r.plan), len(r.data))
+}
+
+// used returns a copy of the part of the plan consumed so far.
+func (r *simReader) used() []readSeg {
+	return append([]readSeg(nil), r.plan[:minInt(r.next, len(r.plan))]...)
+}
+
+func countFiredSegs(st *Stats, segs []readSeg, planLen, dataLen int) {
+	for i, seg := range segs {
 		switch {
 		case seg.N == 0 && seg.Err == nil:
 			st.Inc("fault:empty_read", 1)
 		case seg.Err == io.EOF && seg.N > 0:
 			st.Inc("fault:data_with_eof", 1)
-		case seg.Err == io.EOF && i < len(r.plan)-1:
+		case seg.Err == io.EOF && i < planLen-1:
 			st.Inc("fault:early_eof_then_more_data", 1)
 		case seg.Err == errInjected && seg.N > 0:
 			st.Inc("fault:error_with_data", 1)
 		case seg.Err == errInjected:
 			st.Inc("fault:error_alone", 1)
-		case seg.N > 0 && seg.N < len(r.data):
+		case seg.N > 0 && seg.N < dataLen:
 			st.Inc("fault:short_read", 1)
 		}
 	}
